@@ -179,6 +179,34 @@ def oracle_says(oracle, n, old, v, r):
     return oracle is not None and any(rule_ok(q, n, old, v, r) for q in oracle)
 
 
+# ---- history notation -----------------------------------------------------------
+# An operation of a case is [genome index, kind, args...].  Besides the method calls there are
+#   [i, "setallow", x]   genome.allow_mutations = x      (x: true/false, or another truthy/falsy object: 1, 0, null, "on")
+#   [i, "setcb", spec]   genome.on_mutation = the scripted callback of the rule list spec (null: None, no callback)
+#   [i, "setrate", k]    genome.mutation_rate = k/64
+# -- assignments of the public configuration attributes on the LIVE object, between calls -- and
+#   [i, "repeat", k, [kind, args...]]   the call [i, kind, args...] made k times in a row (long histories)
+CONFIG_KINDS = ("setallow", "setcb", "setrate")
+ALLOW_VALUES = [False, True, False, True, False, True, 0, 1, None, "on"]
+REPEAT_COUNTS = [2, 3, 5, 17, 64, 100, 255, 256, 257, 258, 300, 300, 513]
+
+
+def flat_ops(ops):
+    """The calls a case makes, in order: [(op, compact, index of the case operation)]; compact = an earlier call
+    of a repetition (observed by return value and statistics only)."""
+    out = []
+    for idx, op in enumerate(ops):
+        if op[1] == "repeat":
+            k, inner = op[2], op[3]
+            if not isinstance(k, int) or isinstance(k, bool) or k < 0 or inner[0] in ("repeat", "replicate"):
+                raise ValueError(f"not a repetition of a case: {op!r}")
+            for j in range(k):
+                out.append(([op[0]] + list(inner), j < k - 1, idx))
+        else:
+            out.append((op, False, idx))
+    return out
+
+
 class C20(Check):
     PID = "C20"
     HEADER = "From Verif Require Import C20.Model."
@@ -209,7 +237,22 @@ class C20(Check):
             "and again with mutation_rate 1 (x 4 callbacks; sequences containing a replicate in the quick tier, the scripted "
             "replicate in the thorough tier) and 1/2 (x 2 callbacks, sequences containing the scripted replicate). "
             "non-trivial = at least one mutate/rollback/replicate-with-mutations or re-add reached the gate; distinct by case content")
-    RULE = RULE.replace("alphabet -> now 18 operations", "alphabet of 18 operations")
+    RULE = RULE.replace("alphabet -> now 18 operations (17 with mutation_rate 0;", "alphabet of 22 operations (21 with mutation_rate 0; "
+                        "four of them assign a configuration attribute on the live genome: allow_mutations = True / False, "
+                        "on_mutation = an approve-everything callback / None -- an assignment is combined only with calls that reach the "
+                        "gate: mutate, rollback, the re-add of g0, replicate with mutations, and (depth 2) other assignments; depth 3: "
+                        "at most one assignment, not in the last position;")
+    RULE = RULE.replace("replicate(mutations, inherit_expression), express(context)} each addressed",
+                        "replicate(mutations, inherit_expression), express(context), and the ASSIGNMENTS genome.allow_mutations = x "
+                        "(x a bool or 0 / 1 / None / 'on'), genome.on_mutation = another scripted callback or None, "
+                        "genome.mutation_rate = k/64 on the live object (about one operation in ten; the authorisation the monitor "
+                        "applies to a call is the configuration read from the object when the call is made)} each addressed")
+    RULE += ("; LONG HISTORIES: in one generated case in thirty one operation (mutate 70%, else rollback / re-add / expression "
+             "change / assignment) is made k times in a row, k in {2, 3, 5, 17, 64, 100, 255, 256, 257, 258, 300, 513}, every call "
+             "monitored (return value, log grows by exactly the expected entry, nothing earlier dropped or rewritten) and the "
+             "whole log compared with the model at the end; plus an enumerated family: an applied mutation, then k in "
+             "{17, 257, 300} (thorough: also 64, 255, 256, 258, 513, 1025) logged attempts (refused retries on another gene / on "
+             "the same gene, or applied churn on another gene), then the rollback")
     LEVEL_TEXT = ("Coq theorems, for all genomes, approval callbacks (arbitrary functions of gene, old value, new value, reason) and "
                   "operation lists of any length over a lineage of any size, about a hand-written model of Genome: with allow_mutations "
                   "off every stored value is the replay of the callback-approved log entries (so nothing changes, hash included, when "
@@ -219,7 +262,12 @@ class C20(Check):
                   "random replication mutation was authorised and logged, the random-mutation loop reaches the child only through "
                   "mutate, express is exactly "
                   "the non-silenced non-dormant genes with conditional ones only when named, and rollback re-applies the value preceding "
-                  "the last approved mutation and is never a silent no-op once an approved mutation of the gene is logged (values are "
+                  "the last approved mutation and is never a silent no-op once an approved mutation of the gene is logged, however many "
+                  "attempts were logged since (k attempts leave k entries, for every k); allow_mutations / on_mutation / mutation_rate "
+                  "may be ASSIGNED on the live genome between calls (operations of the history language): an assignment changes that "
+                  "attribute only, the gate of every call is the configuration at the moment of the call, a changed value is "
+                  "attributed to a call that the configuration of that moment authorised, and with allow_mutations never switched on "
+                  "the values are the replay of the entries approved by a callback installed at the time (values are "
                   "None / bool / int / float / str, None being a value and not 'nothing recorded'; gene names are arbitrary strings, each "
                   "spelling its own gene: calls made under any other name, padded or re-cased spellings included, never touch a gene's "
                   "entry, whatever allow_mutations and the callback say). The model is tied to the code by evaluating it in Coq on every generated lineage history "
@@ -248,7 +296,9 @@ class C20(Check):
                "(random.random() - 0.5)` is evaluated in the model by Coq's Gallina specification of IEEE binary64 "
                "(Coq.Floats.SpecFloat; no primitive floats); results that are not finite are not generated; the monitor takes "
                "the calls of Genome.mutate made on the child while replicate runs (recorded by a wrapper) as the attempted mutations"]
-    ASSUMPTIONS = ["allow_mutations / on_mutation / mutation_rate attributes are not reassigned after construction",
+    ASSUMPTIONS = ["configuration attributes are assigned plain values: allow_mutations any object (its truth value counts), "
+                   "on_mutation a callable or None, mutation_rate a number k/64; they are not deleted and no other attribute "
+                   "(_genes, _expression, _mutations, silent) is assigned from outside",
                    "a refused re-add (add_gene of an existing name) returns False without a log entry: noted, not demanded (DESIGN reading)"]
 
     # -- generation --------------------------------------------------------
@@ -318,7 +368,7 @@ class C20(Check):
             # mutation_rate in 64ths: mostly 0 (the default); else certain, likely, rare, out of range
             rate64 = 0 if rng.random() < 0.55 else rng.choice([64, 64, 64, 32, 32, 48, 16, 1, 63, 96, -8])
             nops = rng.choice([3, 5, 6, 8, 8, 9, 10, 12])
-            ops, count, known, touched = [], 1, set(names), {0: []}
+            ops, count, known, touched, rate_set = [], 1, set(names), {0: []}, False
             for _ in range(nops):
                 tgt = rng.randrange(count) if rng.random() < 0.6 else count - 1
                 nm = rng.choice(sorted(known, key=nstr)) if known and rng.random() < 0.88 else rng.randrange(8)
@@ -327,25 +377,35 @@ class C20(Check):
                     nm = respell(rng, nm)
                 k = rng.random()
                 mod = [rng.randrange(len(MODIFIERS))] if rng.random() < 0.3 else []
-                if k < 0.28:
+                if k < 0.26:
                     ops.append([tgt, "mutate", nm, self._rand_value(rng, -2, 6)])
                     touched[tgt].append(nm)
-                elif k < 0.43:
+                elif k < 0.40:
                     # mostly roll back genes this genome tried to mutate (or inherited a mutation of)
                     if touched[tgt] and rng.random() < 0.7:
                         nm = rng.choice(touched[tgt])
                     ops.append([tgt, "rollback", nm])
-                elif k < 0.54:
+                elif k < 0.50:
                     g = self._rand_gene(rng, nm if rng.random() < 0.55 else rng.randrange(8))
                     known.add(g[0])
                     ops.append([tgt, "add", g])
-                elif k < 0.60:
+                elif k < 0.55:
                     ops.append([tgt, "setexpr", nm, rng.randrange(5)] + mod)
-                elif k < 0.66:
+                elif k < 0.60:
                     ops.append([tgt, "silence", nm] + mod)
-                elif k < 0.71:
+                elif k < 0.64:
                     ops.append([tgt, "activate", nm] + mod)
-                elif k < 0.87 and count < MAX_GENOMES:
+                elif k < 0.69:
+                    # the configuration attributes are assigned on the live object: lock / unlock ...
+                    ops.append([tgt, "setallow", rng.choice(ALLOW_VALUES)])
+                elif k < 0.725:
+                    # ... install another callback, or none
+                    ops.append([tgt, "setcb", self._rand_oracle(rng, [respell(rng, x) if rng.random() < 0.08 else x
+                                                                     for x in sorted(known, key=nstr)])])
+                elif k < 0.74:
+                    ops.append([tgt, "setrate", rng.choice([0, 0, 64, 64, 32, 48, 16, 1, 96, -8])])
+                    rate_set = True
+                elif k < 0.88 and count < MAX_GENOMES:
                     pool = sorted(known, key=nstr) + [rng.randrange(8)]
                     ks = rng.sample(pool, min(len(pool), rng.choice([0, 1, 1, 2, 3])))
                     seen, muts = set(), []
@@ -356,11 +416,11 @@ class C20(Check):
                             seen.add(nstr(x))
                             muts.append([x, self._rand_value(rng, -2, 6)])
                     rep = [tgt, "replicate", muts, int(rng.random() < 0.75)]
-                    if rate64 > 0 or rng.random() < 0.1:
+                    if rate64 > 0 or rate_set or rng.random() < 0.1:
                         rep.append(self._rand_draws(rng, len(known)))
                     ops.append(rep)
                     # random mutations may touch any gene of the child: roll those back too
-                    touched[count] = [m[0] for m in muts] + (sorted(known, key=nstr) if rate64 > 0 else [])
+                    touched[count] = [m[0] for m in muts] + (sorted(known, key=nstr) if rate64 > 0 or rate_set else [])
                     count += 1
                 else:
                     ctx = sorted(rng.sample(range(8), rng.choice([0, 1, 2, 4])))
@@ -368,6 +428,19 @@ class C20(Check):
                         # the context names other spellings of some genes (conditional ones are not named by those)
                         ctx += sorted({respell(rng, rng.randrange(8)) for _ in range(rng.choice([1, 2]))})
                     ops.append([tgt, "express", ctx])
+            # long histories: one case in thirty makes one of its calls k times in a row (hundreds of logged attempts,
+            # refused ones too, between whatever came before and whatever comes after: a rollback, a replicate ...)
+            if ops and rng.random() < 0.033:
+                cands = [j for j, o in enumerate(ops) if o[1] == "mutate"]
+                if not cands or rng.random() < 0.3:
+                    cands = [j for j, o in enumerate(ops) if o[1] not in ("replicate", "express")] or cands
+                if cands:
+                    j = rng.choice(cands)
+                    o = ops[j]
+                    ops[j] = [o[0], "repeat", rng.choice(REPEAT_COUNTS), o[1:]]
+                    if o[1] != "rollback" and touched[o[0]] and rng.random() < 0.6:
+                        # ... and afterwards roll back something this genome mutated earlier
+                        ops.insert(rng.randrange(j + 1, len(ops) + 1), [o[0], "rollback", rng.choice(touched[o[0]])])
             case = {"allow": allow, "oracle": oracle, "genes": genes, "ops": ops}
             # the knobs below are left out when they have their default value (so older cases mean the same)
             if rate64:
@@ -390,8 +463,11 @@ class C20(Check):
                     ["add", [0, 7, 4, 2, 0, 0]], ["add", [2, 4, 1, 3, 0, 3]], ["add", ["g0 ", 8, 0, 4, 0, 2]],
                     ["mutate", " g1", 3], ["silence", 0], ["activate", 0],
                     ["setexpr", 1, 3], ["replicate", [[0, 4], [1, 2]], 1], ["replicate", [], 0], ["express", [1]],
+                    ["setallow", True], ["setallow", False], ["setcb", [["match", None, None, None, None]]], ["setcb", None],
                     ["replicate", [[1, 7]], 1, [0, 0, 0, 63, 40, 16]]]
         depth = 2 if self.tier == "quick" else 3
+        gate_ops = [o for o in alphabet if o[0] in ("mutate", "rollback") or o[0] == "add" and o[1][0] == 0
+                    or o[0] == "replicate" and o[1]]
         out = []
         for rate64 in (0, 64, 32):
             for allow in (False, True):
@@ -408,6 +484,13 @@ class C20(Check):
                             continue
                         if (rate64 == 32 or (rate64 and depth > 2)) and not any(len(o) > 3 for o in seq):
                             continue
+                        # an assignment is combined with calls that reach the gate (and, depth 2, with other
+                        # assignments); depth 3: at most one assignment, not in the last position
+                        ncfg = sum(o[0] in CONFIG_KINDS for o in seq)
+                        if ncfg and any(o[0] not in CONFIG_KINDS and o not in gate_ops for o in seq):
+                            continue
+                        if depth > 2 and ncfg and (ncfg > 1 or seq[-1][0] in CONFIG_KINDS):
+                            continue
                         ops, count = [], 1
                         for o in seq:
                             # address the newest genome, so children get exercised too
@@ -418,6 +501,15 @@ class C20(Check):
                         if rate64:
                             case["rate64"] = rate64
                         out.append(case)
+        # long histories: an applied mutation of g1, then k logged attempts, then the rollback of g1
+        ks = (17, 257, 300) if self.tier == "quick" else (17, 64, 255, 256, 257, 258, 300, 513, 1025)
+        for k in ks:
+            for allow, oracle, between in (
+                    (False, [["match", 1, None, None, None]], ["mutate", 0, 4]),      # refused retries on another gene
+                    (False, [["match", None, None, [3], None], ["match", None, None, None, 1]], ["mutate", 1, 4]),   # ... on the same gene
+                    (True, None, ["mutate", 0, 4])):                                  # applied churn on another gene
+                out.append({"allow": allow, "oracle": oracle, "genes": genes,
+                            "ops": [[0, "mutate", 1, 3], [0, "repeat", k, between], [0, "rollback", 1], [0, "rollback", 0]]})
         return out
 
     # -- implementation ----------------------------------------------------
@@ -442,13 +534,24 @@ class C20(Check):
         g.export()
         g.express({UNKNOWN_GENE: True})
 
-    def _snap(self, g, world=(), probes=False):
-        """Everything observable about one Genome, as plain data (never raises on odd states)."""
+    def _snap(self, g, world=(), probes=False, cbs=None):
+        """Everything observable about one Genome, as plain data (never raises on odd states).
+        cbs: id of a callback the harness installed -> (the object, its rule list)."""
         from operon_ai.state import genome as GM
         tcode = {t: i for i, t in enumerate(GM.GeneType)}
         if probes:
             self._probe(g, world)
         genes, levels, bad = [], [], []
+        # the configuration attributes as they are NOW on the live object: the authorisation that applies to a call is
+        # what these say when the call is made
+        cb = g.on_mutation
+        known_cb = (cbs or {}).get(id(cb))
+        if cb is not None and (known_cb is None or known_cb[0] is not cb):
+            bad.append(f"on_mutation is {cb!r}: not a callback that was installed")
+        r64 = g.mutation_rate * 64
+        if not isinstance(g.mutation_rate, (int, float)) or isinstance(g.mutation_rate, bool) or int(r64) != r64:
+            bad.append(f"mutation_rate is {g.mutation_rate!r}: not a number k/64")
+            r64 = 0
         for k, gg in g._genes.items():
             genes.append([gid(k), T(gg.value), tcode[gg.gene_type], dcode(gg.description), int(bool(gg.required)),
                           int(gg.default_expression.value)])
@@ -480,7 +583,8 @@ class C20(Check):
                 "getvalue": [[T(g.get_value(gname(x[0]))), T(g.get_value(gname(x[0]), GV_DEFAULT))] for x in genes],
                 "expr0": [[gid(k), T(v)] for k, v in g.express().items()],
                 "exprb": [[gid(k), T(v)] for k, v in g.express({gname(i): True for i in CTX_B}).items()],
-                "allow": bool(g.allow_mutations), "inconsistent": bad}
+                "allow": bool(g.allow_mutations), "oracle": known_cb[1] if cb is not None and known_cb else None,
+                "rate64": int(r64), "inconsistent": bad}
 
     @staticmethod
     def _detail(s, frm):
@@ -514,17 +618,26 @@ class C20(Check):
                            required=bool(x[4]), default_expression=levels[x[5]])
 
         oracle = case["oracle"]
+        cbs = {}         # id(callback) -> (callback, rule list): what the harness installed, kept alive
 
-        def on_mutation(m):
-            n, r = gid(m.gene_name), REASON_STR.get(m.reason, 9)
-            ok = oracle_says(oracle, n, T(m.original_value), T(m.new_value), r)
-            calls.append([n, T(m.original_value), T(m.new_value), r, int(ok)])
-            # a callback may answer with any truthy / falsy object
-            if cbret == 1:
-                return 1 if ok else 0
-            if cbret == 2:
-                return "yes" if ok else None
-            return ok
+        def mkcb(rules):
+            """A scripted approval callback for a rule list (None: no callback).  One object per installation."""
+            if rules is None:
+                return None
+
+            def on_mutation(m):
+                n, r = gid(m.gene_name), REASON_STR.get(m.reason, 9)
+                ok = oracle_says(rules, n, T(m.original_value), T(m.new_value), r)
+                calls.append([n, T(m.original_value), T(m.new_value), r, int(ok)])
+                # a callback may answer with any truthy / falsy object
+                if cbret == 1:
+                    return 1 if ok else 0
+                if cbret == 2:
+                    return "yes" if ok else None
+                return ok
+
+            cbs[id(on_mutation)] = (on_mutation, rules)
+            return on_mutation
 
         hashes = {}
 
@@ -540,11 +653,12 @@ class C20(Check):
             for s in snaps:
                 h = hid(s["hash"])
                 ph = hid(s["parent_hash"])
-                rows.append([h, ph, s["generation"], s["total"], s["mcount"], s["approved"]] + s["levels"])
+                rows.append([h, ph, s["generation"], s["total"], s["mcount"], s["approved"], int(s["allow"]), s["rate64"]]
+                            + s["levels"])
             return rows
 
         kw = dict(allow_mutations=case["allow"], mutation_rate=rate64 / 64.0,
-                  on_mutation=on_mutation if oracle is not None else None, silent=silent)
+                  on_mutation=mkcb(oracle), silent=silent)
         if case.get("from_dict"):
             # the other public constructor: plain structural genes from a name -> value dict
             for x in case["genes"]:
@@ -553,17 +667,17 @@ class C20(Check):
             world = [GM.Genome.from_dict({gname(x[0]): x[1] for x in case["genes"]}, **kw)]
         else:
             world = [GM.Genome(genes=[mkgene(x) for x in case["genes"]], **kw)]
-        snaps = [self._snap(g, world, probes) for g in world]
+        snaps = [self._snap(g, world, probes, cbs) for g in world]
         obs = self._detail(snaps[0], 0) + light(snaps)
         steps = [{"init": True, "after": snaps, "calls": list(calls)}]
-        for op in case["ops"]:
+        for op, compact, idx in flat_ops(case["ops"]):
             i, kind = op[0], op[1]
             before = snaps
             del calls[:]
             if i >= len(world):
                 obs.append([3])
-                obs += light(before)
-                steps.append({"op": op, "bad": True, "before": before, "after": before, "calls": []})
+                obs += [[]] if compact else light(before)
+                steps.append({"op": op, "bad": True, "before": before, "after": before, "calls": [], "case_op": idx})
                 continue
             g = world[i]
             ret = None
@@ -611,23 +725,38 @@ class C20(Check):
             elif kind == "express":
                 cfg = g.express({gname(n): True for n in op[2]} if op[2] else None)
                 ret = [[gid(k), T(v)] for k, v in cfg.items()]
+            elif kind == "setallow":
+                # plain attribute assignments on the live object, as a user of the class writes them
+                if not (op[2] is None or isinstance(op[2], (bool, int, str))):
+                    raise ValueError(f"not a value a case assigns to allow_mutations: {op[2]!r}")
+                g.allow_mutations = op[2]
+            elif kind == "setcb":
+                g.on_mutation = mkcb(op[2])
+            elif kind == "setrate":
+                g.mutation_rate = op[2] / 64.0
             else:
                 raise ValueError(kind)
-            snaps = [self._snap(w, world, probes) for w in world]
+            snaps = [self._snap(w, world, probes, cbs) for w in world]
             if kind == "replicate":
                 obs.append([1, ret])
             elif kind == "express":
                 obs.append([2] + [y for k, v in ret for y in [ncode(k)] + vcode(v)])
+            elif kind in CONFIG_KINDS:
+                obs.append([4])
             else:
                 if not isinstance(ret, bool):
                     raise RuntimeError(f"{kind} returned {ret!r}")
                 obs.append([0, int(ret)])
-            obs += self._detail(snaps[i], len(before[i]["log"]))
-            if kind == "replicate":
-                obs += self._detail(snaps[-1], 0)
-            obs += light(snaps)
+            if compact:
+                # an earlier call of a repetition: return value and the statistics row of the genome called
+                obs += light([snaps[i]])
+            else:
+                obs += self._detail(snaps[i], len(before[i]["log"]))
+                if kind == "replicate":
+                    obs += self._detail(snaps[-1], 0)
+                obs += light(snaps)
             steps.append({"op": op, "ret": ret, "before": before, "after": snaps, "calls": list(calls),
-                          "attempts": attempts})
+                          "attempts": attempts, "case_op": idx})
         for s in snaps:
             obs += self._detail(s, 0)
         return obs, {"steps": steps}
@@ -648,7 +777,7 @@ class C20(Check):
                 return f"(RNewMod {cz(q[1])} {cz(q[2])})"
             return "RGrow"
 
-        def op(o):
+        def gop(o):
             i, k = o[0], o[1]
             if k == "add":
                 t = f"OAdd {gene(o[2])}"
@@ -665,9 +794,23 @@ class C20(Check):
             elif k == "replicate":
                 t = (f"OReplicate {clist([ctuple(cname(n), cval(v)) for n, v in o[2]])} {cbool(o[3])} "
                      f"{clist([cz(k) for k in (o[4] if len(o) > 4 else [])])}")
-            else:
+            elif k == "express":
                 t = f"OExpress {clist([cname(n) for n in o[2]])}"
-            return ctuple(cnat(i), t)
+            elif k == "setallow":
+                t = f"OSetAllow {cbool(bool(o[2]))}"          # the truth value of the assigned object is what counts
+            elif k == "setcb":
+                t = "OSetCb None" if o[2] is None else f"OSetCb (Some (interp_oracle {clist([rule(q) for q in o[2]])}))"
+            elif k == "setrate":
+                t = f"OSetRate {cz(o[2])}"
+            else:
+                raise ValueError(k)
+            return t
+
+        def op(o):
+            # (genome index, number of calls in a row, operation)
+            if o[1] == "repeat":
+                return ctuple(cnat(o[0]), cnat(o[2]), gop([o[0]] + list(o[3])))
+            return ctuple(cnat(o[0]), cnat(1), gop(o))
 
         orc = "None" if case["oracle"] is None else f"(Some {clist([rule(q) for q in case['oracle']])})"
         # the type annotation keeps `None` / `[]` typeable when a whole shard has no callback or no operations
@@ -691,7 +834,6 @@ class C20(Check):
     def monitor(self, case, obs, trace):
         if trace.get("harness_error") or trace.get("hang"):
             return Violation("C20/raises", f"a Genome operation did not behave as a configuration operation: {trace}")
-        oracle = case["oracle"]
         prev = {}        # genome index -> {gene: value that preceded its last approved mutation}
         napproved = {}   # genome index -> number of mutations that were applied
         for k, st in enumerate(trace["steps"]):
@@ -723,10 +865,35 @@ class C20(Check):
             i, kind = op[0], op[1]
             nb = len(before)
             b, a = before[i], after[i]
-            allow = b["allow"]
+            # the authorisation that applies to this call: the configuration the genome has WHEN THE CALL IS MADE, as read
+            # from its public attributes just before (whatever it was constructed with or had earlier)
+            allow, oracle = b["allow"], b["oracle"]
+            if kind in CONFIG_KINDS:
+                # an assignment: the attribute reads back as assigned, and nothing else about any genome changes
+                want = dict(b)
+                if kind == "setallow":
+                    want["allow"] = bool(op[2])
+                elif kind == "setcb":
+                    want["oracle"] = op[2]
+                else:
+                    want["rate64"] = op[2]
+                if a != want:
+                    diff = sorted(x for x in a if a[x] != want.get(x))
+                    return Violation("C20/assignment-changed-state", f"step {k}: {op} on genome {i} changed {diff}: "
+                                     f"{ {x: (b.get(x), a[x]) for x in diff} }")
+                continue
             if a["allow"] != allow:
                 return Violation("C20/allow-flag-changed", f"step {k}: {op} changed allow_mutations")
+            if a["oracle"] != oracle or a["rate64"] != b["rate64"]:
+                return Violation("C20/configuration-changed-by-call", f"step {k}: {op} changed on_mutation / mutation_rate")
             if a["log"][:len(b["log"])] != b["log"]:
+                nl = len(b["log"])
+                d = next((d for d in range(1, nl + 1) if a["log"][:nl - d] == b["log"][d:]), None)
+                if d is not None:
+                    return Violation("C20/log-entries-dropped", f"step {k}: {op} on genome {i}: the mutation log held {nl} entries "
+                                     f"and now lacks the oldest {d} of them (first dropped: {b['log'][0]}; log now has "
+                                     f"{len(a['log'])} entries, get_statistics reports mutations_count={a['mcount']}): logged "
+                                     f"attempts and approved mutations are forgotten")
                 return Violation("C20/log-rewritten", f"step {k}: {op} rewrote earlier mutation-log entries of genome {i}")
             newlog = a["log"][len(b["log"]):]
             vb, va = self._vmap(b), self._vmap(a)
@@ -854,8 +1021,10 @@ class C20(Check):
                         return Violation("C20/refused-not-logged", f"step {k}: child log {c['log']} != one entry per replication "
                                          f"mutation {explog}")
                     return Violation("C20/applied-not-logged", f"step {k}: child log {c['log']} != {explog}")
-                if c["allow"] != allow or c["parent_hash"] != b["hash"] or c["generation"] != b["generation"] + 1:
-                    return Violation("C20/child-metadata", f"step {k}: child allow/parent_hash/generation wrong")
+                if (c["allow"] != allow or c["oracle"] != oracle or c["rate64"] != b["rate64"]
+                        or c["parent_hash"] != b["hash"] or c["generation"] != b["generation"] + 1):
+                    return Violation("C20/child-metadata", f"step {k}: child allow_mutations / on_mutation / mutation_rate / "
+                                     f"parent_hash / generation is not the parent's at the time of the call")
                 explev = b["levels"] if op[3] else [x[5] for x in b["genes"]]
                 if c["levels"] != explev:
                     return Violation("C20/child-expression", f"step {k}: child expression levels {c['levels']}, expected {explev}")
@@ -882,6 +1051,11 @@ class C20(Check):
     def classify(self, case, obs, trace):
         ks = [f"allow={case['allow']}", "oracle=" + ("none" if case["oracle"] is None else "deny" if not case["oracle"] else "rules"),
               f"ops={len(case['ops'])}"]
+        ncalls = len(trace.get("steps", [])) - 1
+        ks.append("calls=" + ("<=12" if ncalls <= 12 else "13..63" if ncalls < 64 else "64..255" if ncalls < 256 else ">=256"))
+        for o in case["ops"]:
+            if o[1] == "repeat":
+                ks.append(f"repeat:{o[3][0]}x" + ("<64" if o[2] < 64 else "64..255" if o[2] < 256 else ">=256"))
         r64 = case.get("rate64", 0)
         ks.append("mutation_rate=" + ("0" if r64 == 0 else "negative" if r64 < 0 else "1.0" if r64 == 64 else ">1" if r64 > 64
                                       else "in(0,1)"))
@@ -910,6 +1084,25 @@ class C20(Check):
                 continue
             kind = op[1]
             tag = kind
+            bcfg = st["before"][op[0]]
+            if kind in CONFIG_KINDS:
+                # an assignment on the live object: what it does to the configuration the next calls will find
+                if kind == "setallow":
+                    tag += ":" + ("lock" if bcfg["allow"] and not op[2] else "unlock" if op[2] and not bcfg["allow"] else "same")
+                    if not isinstance(op[2], bool):
+                        ks.append("setallow-non-bool")
+                elif kind == "setcb":
+                    tag += ":" + ("remove" if op[2] is None else "install" if bcfg["oracle"] is None else "replace")
+                ks.append(tag + ("@child" if op[0] > 0 else "@root"))
+                continue
+            if kind in ("mutate", "rollback") and len(st["after"][op[0]]["log"]) > len(bcfg["log"]):
+                # a call that reached the gate on a genome whose configuration is not the constructor's any more
+                if bcfg["allow"] != bool(case["allow"]) and op[0] == 0:
+                    ks.append(f"gate-after-allow-assigned:{kind}={st['ret']}")
+                if bcfg["oracle"] != case["oracle"] and op[0] == 0:
+                    ks.append(f"gate-after-callback-assigned:{kind}={st['ret']}")
+                if kind == "rollback" and len(bcfg["log"]) >= 256:
+                    ks.append(f"rollback-behind->=256-log-entries={st['ret']}")
             # operations that spell a name differently from the plain g<i>; "twin": the plain name is a gene of the genome
             held = {x[0] for x in st["before"][op[0]]["genes"]}
             for x in ([op[2][0]] if kind == "add" else [op[2]] if kind in ("mutate", "rollback", "setexpr", "silence", "activate")
@@ -943,6 +1136,20 @@ class C20(Check):
             return out
 
         ops = common.shrink_list(case["ops"], lambda os: fix(os) is not None and pred({**case, "ops": os}))
+        # a repetition: the smallest number of calls that still fails the same way (bisection; once only: a single call)
+        for j, o in enumerate(ops):
+            if o[1] == "repeat":
+                def with_k(k):
+                    return ops[:j] + [[o[0], "repeat", k, o[3]] if k != 1 else [o[0]] + list(o[3])] + ops[j + 1:]
+                lo, hi = 0, o[2]            # fails with hi calls
+                while hi - lo > 1:
+                    mid = (lo + hi) // 2
+                    try:
+                        ok = pred({**case, "ops": with_k(mid)})
+                    except Exception:
+                        ok = False
+                    lo, hi = (lo, mid) if ok else (mid, hi)
+                ops = with_k(hi)
         genes = common.shrink_list(case["genes"], lambda gs: len(gs) > 0 and pred({**case, "ops": ops, "genes": gs}))
         return {**case, "ops": ops, "genes": genes}
 
